@@ -202,6 +202,18 @@ func faultMain() {
 		withCancel := *cancelEvery > 0 && t%*cancelEvery == *cancelEvery-1
 		fmt.Fprintf(out, "# trace %d db fault cancel=%v\n", t, withCancel)
 		g := &gen{rnd: rnd, hostile: 0.05, families: strings.Split(*fams, ","), dbLevel: true}
+		if t == 0 {
+			// one operation on far more names than any batching constant: it must still be all-or-nothing
+			// (a fault before its 2nd / 3rd storage call, should it make that many)
+			var names []string
+			for i := 0; i < 1100; i++ {
+				names = append(names, fmt.Sprintf("b%04d", i))
+				db.Str().Set(names[i], "v")
+			}
+			faultStep(db, opKeyDelete(names), 2)
+			faultStep(db, opKeyDelete(names), 3)
+			runStep(db, "db", opKeyDelete(names))
+		}
 		for i := 0; i < *length; i++ {
 			switch r := rnd.Intn(10); {
 			case r < 6:
